@@ -1,4 +1,4 @@
-import Kolibrie.Lemmas.Update
+import Kolibrie.Lemmas.UpdateExec
 /-!
 # C03 — SPARQL Update applies exactly the standard effect, atomically
 
@@ -82,6 +82,30 @@ theorem modify_uses_pre_state (db : DB) (del ins : List QT) (w : Pat) (base : Na
         (instTemplates db del (sem db ⟨View.fromDb db, none⟩ w) base)
         (instTemplates db ins (sem db ⟨View.fromDb db, none⟩ w) base)) := by
   unfold applyUpdate; simp [hv]
+
+/-- **the update is correct whichever plan evaluates its WHERE clause**: for WHERE clauses of the fragment `okPat`
+    (proved to be plan-independent in C01/C02) and blank-node-free templates, running the executor on the plan chosen
+    by *any* join-algorithm oracle yields the standard effect — same quad set, same graph catalog, same counts — as
+    the specification that evaluates the WHERE clause by the algebra on the pre-operation dataset -/
+theorem modify_correct_under_every_plan (db : DB) (del ins : List QT) (w : Pat) (base : Nat) (algs : List JoinAlg)
+    (hw : okPat w = true) (hd : bnodeFree del = true) (hi : bnodeFree ins = true) :
+    let rows := sem db ⟨View.fromDb db, none⟩ w
+    let spec := specApply db (instTemplates db del rows base) (instTemplates db ins rows base)
+    let impl := modifyExec db (some del) (some ins) w base algs
+    (∀ q, q ∈ impl.1.quads ↔ q ∈ spec.1.quads) ∧ (∀ g, g ∈ impl.1.graphs ↔ g ∈ spec.1.graphs) ∧ impl.2 = spec.2 := by
+  intro rows spec impl
+  have hc : (⟨View.fromDb db, none⟩ : Ctx).WF := nodup_eraseDups _
+  have hperm := plans_compute_algebra db w hw algs ⟨View.fromDb db, none⟩ hc
+  have e : impl = specApply db
+      (instTemplates db del (exec db (implement algs (lower .dflt w)).1 ⟨View.fromDb db, none⟩ [[]]) base)
+      (instTemplates db ins (exec db (implement algs (lower .dflt w)).1 ⟨View.fromDb db, none⟩ [[]]) base) := by
+    show modifyExec db (some del) (some ins) w base algs = _
+    unfold modifyExec
+    simp only [applyMutations_eq]
+  rw [e]
+  exact specApply_congr db _ _ _ _
+    (fun q => instTemplates_perm db del _ _ base hd hperm q)
+    (fun q => instTemplates_perm db ins _ _ base hi hperm q)
 
 /-- deleting and re-inserting the same present quad is reported as one deletion and one insertion, re-inserting
 an existing quad that is not deleted is reported as no change (instances of `mutations_standard_effect`) -/
